@@ -614,94 +614,123 @@ Qed.
 Lemma dtoks_plain : forall dl l, Forall (dtok_ok dl) l -> forallb is_plain l = true.
 Proof. intros dl l H. induction H as [|t l (Hp & _) _ IH]; [reflexivity|]. cbn. rewrite Hp, IH. reflexivity. Qed.
 
-Definition entry_value (kt vt : list tok) : aval * aval := (VStr (strip (map code_of kt)), VStr (strip (map code_of vt))).
+(* a dictionary entry: key tokens and, after `=`, value tokens (possibly none); a bare key has no `=` *)
+Definition entry := (list tok * option (list tok))%type.
 
-Lemma dfinish_entry : forall lvl sub dl d kt vt, str_sub sub -> Forall (dtok_ok dl) kt -> Forall (dtok_ok dl) vt ->
-  dfinish lvl sub d (rev kt) (Some (rev vt)) =
-  Some (dict_set (fst (entry_value kt vt)) (snd (entry_value kt vt)) key_eqb d).
+(* a bare key is True; `key=` with nothing after it is the empty string *)
+Definition entry_value (e : entry) : aval * aval :=
+  (VStr (strip (map code_of (fst e))),
+   match snd e with None => VTrue | Some vt => VStr (strip (map code_of vt)) end).
+
+Lemma dfinish_entry : forall lvl sub dl d kt ov, str_sub sub -> Forall (dtok_ok dl) kt ->
+  match ov with Some vt => Forall (dtok_ok dl) vt | None => True end ->
+  dfinish lvl sub d (rev kt) (match ov with Some vt => Some (rev vt) | None => None end) =
+  Some (dict_set (fst (entry_value (kt, ov))) (snd (entry_value (kt, ov))) key_eqb d).
 Proof.
-  intros lvl sub dl d kt vt Hs Hk Hv. unfold dfinish, normalize. rewrite !rev_involutive.
-  rewrite (dtoks_plain dl kt Hk), (cast_item_str lvl sub vt Hs (dtoks_plain dl vt Hv)). reflexivity.
+  intros lvl sub dl d kt ov Hs Hk Hv. unfold dfinish, normalize. rewrite rev_involutive, (dtoks_plain dl kt Hk).
+  destruct ov as [vt|]; [|reflexivity].
+  rewrite rev_involutive, (cast_item_str lvl sub vt Hs (dtoks_plain dl vt Hv)). reflexivity.
 Qed.
 
 Definition eq_tok : tok := Ch 12 61.
 
-(* key = value, the last pair of the argument *)
-Lemma dict_last_entry : forall lvl sub dl d kt vt, str_sub sub -> dl <> 61 ->
-  Forall (dtok_ok dl) kt -> Forall (dtok_ok dl) vt -> vt <> [] ->
-  dict_loop lvl sub dl (kt ++ eq_tok :: vt) O d [] None =
-  Some (dict_set (fst (entry_value kt vt)) (snd (entry_value kt vt)) key_eqb d).
+Definition entry_toks (e : entry) : list tok := fst e ++ match snd e with Some vt => eq_tok :: vt | None => [] end.
+
+Definition entry_ok (dl : Z) (e : entry) : Prop :=
+  Forall (dtok_ok dl) (fst e) /\
+  match snd e with Some vt => Forall (dtok_ok dl) vt | None => fst e <> [] end.
+
+(* the last entry of the argument *)
+Lemma dict_last_entry : forall lvl sub dl d e, str_sub sub -> dl <> 61 -> entry_ok dl e ->
+  dict_loop lvl sub dl (entry_toks e) O d [] None =
+  Some (dict_set (fst (entry_value e)) (snd (entry_value e)) key_eqb d).
 Proof.
-  intros lvl sub dl d kt vt Hs Hdl Hk Hv Hne.
-  rewrite (dict_key_run lvl sub dl kt (eq_tok :: vt) d [] Hk) by discriminate. rewrite app_nil_r.
-  rewrite (dict_step_plain _ _ _ eq_tok) by reflexivity. cbn [eq_tok tok_is_char]. change (61 =? 61) with true. cbv iota.
-  replace (61 =? dl) with false by (symmetry; apply Z.eqb_neq; congruence).
-  assert (Hnil : is_nil vt = false) by (destruct vt; [congruence|reflexivity]). rewrite Hnil. cbn [orb].
-  (* all but the last value token, then the last one, which ends the argument *)
-  destruct (exists_last Hne) as (vt' & tl & ->).
-  apply Forall_app in Hv. destruct Hv as (Hv' & Hl). inversion Hl as [|? ? (Hp & He & Hd) _]; subst.
-  rewrite (dict_value_run lvl sub dl vt' [tl] d (rev kt) [] Hv') by discriminate. rewrite app_nil_r.
-  rewrite (dict_step_plain _ _ _ tl _ _ _ _ Hp), He, Hd. cbn [is_nil orb].
-  assert (Hfin : dfinish lvl sub d (rev kt) (Some (tl :: rev vt')) =
-                 Some (dict_set (fst (entry_value kt (vt' ++ [tl]))) (snd (entry_value kt (vt' ++ [tl]))) key_eqb d)).
-  { rewrite <- (dfinish_entry lvl sub dl d kt (vt' ++ [tl]) Hs Hk).
-    - rewrite rev_app_distr. reflexivity.
-    - apply Forall_app. split; [exact Hv'|]. repeat constructor; auto. }
-  rewrite Hfin. reflexivity.
+  intros lvl sub dl d [kt ov] Hs Hdl (Hk & Hv). unfold entry_toks. cbn [fst snd] in *.
+  destruct ov as [vt|].
+  - (* key = value *)
+    rewrite (dict_key_run lvl sub dl kt (eq_tok :: vt) d [] Hk) by discriminate. rewrite app_nil_r.
+    rewrite (dict_step_plain _ _ _ eq_tok) by reflexivity. cbn [eq_tok tok_is_char]. change (61 =? 61) with true. cbv iota.
+    replace (61 =? dl) with false by (symmetry; apply Z.eqb_neq; congruence).
+    destruct vt as [|v0 vt0].
+    + (* nothing after the = : the empty string *)
+      cbn [is_nil orb]. pose proof (dfinish_entry lvl sub dl d kt (Some []) Hs Hk Hv) as Hf. cbv beta iota in Hf. cbn [rev] in Hf. rewrite Hf. reflexivity.
+    + assert (Hne : v0 :: vt0 <> []) by discriminate.
+      cbn [is_nil orb].
+      destruct (exists_last Hne) as (vt' & tl & E). rewrite E in *.
+      apply Forall_app in Hv. destruct Hv as (Hv' & Hl). inversion Hl as [|? ? (Hp & He & Hd) _]; subst.
+      rewrite (dict_value_run lvl sub dl vt' [tl] d (rev kt) [] Hv') by discriminate. rewrite app_nil_r.
+      rewrite (dict_step_plain _ _ _ tl _ _ _ _ Hp), He, Hd. cbn [is_nil orb].
+      assert (Hall : Forall (dtok_ok dl) (vt' ++ [tl])) by (apply Forall_app; split; [exact Hv'|repeat constructor; auto]).
+      pose proof (dfinish_entry lvl sub dl d kt (Some (vt' ++ [tl])) Hs Hk Hall) as Hf. cbv beta iota in Hf.
+      rewrite rev_app_distr in Hf. cbn [rev app] in Hf. rewrite Hf. reflexivity.
+  - (* a bare key *)
+    rewrite app_nil_r. destruct (exists_last Hv) as (kt' & tl & E). rewrite E in *.
+    apply Forall_app in Hk. destruct Hk as (Hk' & Hl). inversion Hl as [|? ? (Hp & He & Hd) _]; subst.
+    rewrite (dict_key_run lvl sub dl kt' [tl] d [] Hk') by discriminate. rewrite app_nil_r.
+    rewrite (dict_step_plain _ _ _ tl _ _ _ _ Hp), He, Hd. cbn [is_nil orb].
+    assert (Hall : Forall (dtok_ok dl) (kt' ++ [tl])) by (apply Forall_app; split; [exact Hk'|repeat constructor; auto]).
+    pose proof (dfinish_entry lvl sub dl d (kt' ++ [tl]) None Hs Hall I) as Hf. cbv beta iota in Hf.
+    rewrite rev_app_distr in Hf. cbn [rev app] in Hf. rewrite Hf. reflexivity.
 Qed.
 
-(* key = value followed by the delimiter and more *)
-Lemma dict_entry_then : forall lvl sub dl d kt vt rest, str_sub sub -> dl <> 61 ->
-  Forall (dtok_ok dl) kt -> Forall (dtok_ok dl) vt -> vt <> [] ->
-  dict_loop lvl sub dl (kt ++ eq_tok :: vt ++ Ch 12 dl :: rest) O d [] None =
-  dict_loop lvl sub dl rest O (dict_set (fst (entry_value kt vt)) (snd (entry_value kt vt)) key_eqb d) [] None.
+(* an entry followed by the delimiter and more *)
+Lemma dict_entry_then : forall lvl sub dl d e rest, str_sub sub -> dl <> 61 -> entry_ok dl e ->
+  dict_loop lvl sub dl (entry_toks e ++ Ch 12 dl :: rest) O d [] None =
+  dict_loop lvl sub dl rest O (dict_set (fst (entry_value e)) (snd (entry_value e)) key_eqb d) [] None.
 Proof.
-  intros lvl sub dl d kt vt rest Hs Hdl Hk Hv Hne.
-  rewrite (dict_key_run lvl sub dl kt _ d [] Hk) by discriminate. rewrite app_nil_r.
-  rewrite (dict_step_plain _ _ _ eq_tok) by reflexivity. cbn [eq_tok tok_is_char]. change (61 =? 61) with true. cbv iota.
-  replace (61 =? dl) with false by (symmetry; apply Z.eqb_neq; congruence).
-  assert (Hnil : is_nil (vt ++ Ch 12 dl :: rest) = false) by (destruct vt; reflexivity). rewrite Hnil. cbn [orb].
-  rewrite (dict_value_run lvl sub dl vt (Ch 12 dl :: rest) d (rev kt) [] Hv) by discriminate. rewrite app_nil_r.
-  rewrite (dict_step_plain _ _ _ (Ch 12 dl)) by reflexivity. cbn [tok_is_char].
-  replace (dl =? 61) with false by (symmetry; apply Z.eqb_neq; congruence). rewrite Z.eqb_refl. cbn [orb].
-  rewrite (dfinish_entry lvl sub dl d kt vt Hs Hk Hv). reflexivity.
+  intros lvl sub dl d [kt ov] rest Hs Hdl (Hk & Hv). unfold entry_toks. cbn [fst snd] in *. rewrite <- app_assoc.
+  rewrite (dict_key_run lvl sub dl kt _ d [] Hk) by (destruct ov; discriminate). rewrite app_nil_r.
+  destruct ov as [vt|]; cbn [app].
+  - rewrite (dict_step_plain _ _ _ eq_tok) by reflexivity. cbn [eq_tok tok_is_char]. change (61 =? 61) with true. cbv iota.
+    replace (61 =? dl) with false by (symmetry; apply Z.eqb_neq; congruence).
+    assert (Hnil : is_nil (vt ++ Ch 12 dl :: rest) = false) by (destruct vt; reflexivity). rewrite Hnil. cbn [orb].
+    rewrite (dict_value_run lvl sub dl vt (Ch 12 dl :: rest) d (rev kt) [] Hv) by discriminate. rewrite app_nil_r.
+    rewrite (dict_step_plain _ _ _ (Ch 12 dl)) by reflexivity. cbn [tok_is_char].
+    replace (dl =? 61) with false by (symmetry; apply Z.eqb_neq; congruence). rewrite Z.eqb_refl. cbn [orb].
+    rewrite (dfinish_entry lvl sub dl d kt (Some vt) Hs Hk Hv). reflexivity.
+  - rewrite (dict_step_plain _ _ _ (Ch 12 dl)) by reflexivity. cbn [tok_is_char].
+    replace (dl =? 61) with false by (symmetry; apply Z.eqb_neq; congruence). rewrite Z.eqb_refl. cbn [orb].
+    rewrite (dfinish_entry lvl sub dl d kt None Hs Hk I). reflexivity.
 Qed.
 
-Fixpoint join_entries (dl : Z) (es : list (list tok * list tok)) : list tok :=
+Fixpoint join_entries (dl : Z) (es : list entry) : list tok :=
   match es with
   | [] => []
-  | [(kt, vt)] => kt ++ eq_tok :: vt
-  | (kt, vt) :: r => kt ++ eq_tok :: vt ++ Ch 12 dl :: join_entries dl r
+  | [e] => entry_toks e
+  | e :: r => entry_toks e ++ Ch 12 dl :: join_entries dl r
   end.
 
-(* the dictionary the pairs denote: in order of first occurrence of a key, a later pair with the same key replaces the value *)
-Definition dict_of (es : list (list tok * list tok)) (d0 : list (aval * aval)) : list (aval * aval) :=
-  fold_left (fun d e => dict_set (fst (entry_value (fst e) (snd e))) (snd (entry_value (fst e) (snd e))) key_eqb d) es d0.
-
-Definition entry_ok (dl : Z) (e : list tok * list tok) : Prop :=
-  Forall (dtok_ok dl) (fst e) /\ Forall (dtok_ok dl) (snd e) /\ snd e <> [].
+(* the dictionary the entries denote: in order of first occurrence of a key, a later entry with the same key replaces the value *)
+Definition dict_of (es : list entry) (d0 : list (aval * aval)) : list (aval * aval) :=
+  fold_left (fun d e => dict_set (fst (entry_value e)) (snd (entry_value e)) key_eqb d) es d0.
 
 Lemma dict_entries : forall lvl sub dl es d0, str_sub sub -> dl <> 61 -> es <> [] -> Forall (entry_ok dl) es ->
   dict_loop lvl sub dl (join_entries dl es) O d0 [] None = Some (dict_of es d0).
 Proof.
-  intros lvl sub dl es. induction es as [|[kt vt] r IH]; intros d0 Hs Hdl Hne Hok; [congruence|].
-  inversion Hok as [|? ? (Hk & Hv & Hvn) Hr]; subst. cbn [fst snd] in *. destruct r as [|e2 r'].
-  - cbn [join_entries]. rewrite (dict_last_entry lvl sub dl d0 kt vt Hs Hdl Hk Hv Hvn). reflexivity.
-  - change (join_entries dl ((kt, vt) :: e2 :: r')) with (kt ++ eq_tok :: vt ++ Ch 12 dl :: join_entries dl (e2 :: r')).
-    rewrite (dict_entry_then lvl sub dl d0 kt vt _ Hs Hdl Hk Hv Hvn).
+  intros lvl sub dl es. induction es as [|e r IH]; intros d0 Hs Hdl Hne Hok; [congruence|].
+  inversion Hok as [|? ? He Hr]; subst. destruct r as [|e2 r'].
+  - cbn [join_entries]. rewrite (dict_last_entry lvl sub dl d0 e Hs Hdl He). reflexivity.
+  - change (join_entries dl (e :: e2 :: r')) with (entry_toks e ++ Ch 12 dl :: join_entries dl (e2 :: r')).
+    rewrite (dict_entry_then lvl sub dl d0 e _ Hs Hdl He).
     rewrite (IH _ Hs Hdl ltac:(discriminate) Hr). reflexivity.
+Qed.
+
+Lemma entry_plain : forall dl e, entry_ok dl e -> forallb is_plain (entry_toks e) = true.
+Proof.
+  intros dl [kt ov] (Hk & Hv). unfold entry_toks. cbn [fst snd] in *. apply forallb_app_true; [eapply dtoks_plain; eauto|].
+  destruct ov as [vt|]; [|reflexivity]. cbn [forallb eq_tok is_plain]. eapply dtoks_plain; eauto.
 Qed.
 
 Lemma entries_plain : forall dl es, Forall (entry_ok dl) es -> forallb is_plain (join_entries dl es) = true.
 Proof.
-  intros dl es H. induction H as [|[kt vt] r (Hk & Hv & _) _ IH]; [reflexivity|]. cbn [fst snd] in *. destruct r as [|e2 r'].
-  - cbn [join_entries]. apply forallb_app_true; [eapply dtoks_plain; eauto|]. cbn [forallb eq_tok is_plain]. eapply dtoks_plain; eauto.
-  - change (join_entries dl ((kt, vt) :: e2 :: r')) with (kt ++ eq_tok :: vt ++ Ch 12 dl :: join_entries dl (e2 :: r')).
-    apply forallb_app_true; [eapply dtoks_plain; eauto|]. cbn [forallb eq_tok is_plain].
-    apply forallb_app_true; [eapply dtoks_plain; eauto|]. cbn [forallb is_plain]. exact IH.
+  intros dl es H. induction H as [|e r He _ IH]; [reflexivity|]. destruct r as [|e2 r'].
+  - cbn [join_entries]. eapply entry_plain; eauto.
+  - change (join_entries dl (e :: e2 :: r')) with (entry_toks e ++ Ch 12 dl :: join_entries dl (e2 :: r')).
+    apply forallb_app_true; [eapply entry_plain; eauto|]. cbn [forallb is_plain]. exact IH.
 Qed.
 
-(* dict: key=value pairs separated by the delimiter; keys and values bound to their text, blanks stripped *)
+(* dict: entries separated by the delimiter; a bare key is bound to True, key=value to the value's text with blanks stripped,
+   `key=` with nothing after it to the empty string *)
 Lemma areads_dict : forall a k piece es rest,
   classify (a_type a) = TyDict -> str_sub (a_subtype a) -> delim_of a <> 61 -> es <> [] -> Forall (entry_ok (delim_of a)) es ->
   delimited (a_spec a) piece (join_entries (delim_of a) es) ->
@@ -780,7 +809,8 @@ Qed.
      directly by a token the digit scanner does not expand (a brace, $, an ordinary control sequence: c_number_tight);
      Dimen, Glue: as in the numeric theorems (after fil/fill no further l; absent plus/minus really absent);
    - list / dict: items, keys and values are character tokens without the delimiter (and without = in a dict), subtype none or
-     a string type (for list also an integer type: every item an integer literal), values non-empty, delimiter other than = for dict. *)
+     a string type (for list also an integer type: every item an integer literal); a dict entry is a bare key (True), key=value
+     or key= (the empty string); delimiter other than = for dict. *)
 Inductive conforms : arg -> list tok -> (aval -> Prop) -> list tok -> Prop :=
 | c_untyped : forall a k piece body rest,
     classify (a_type a) = TyNone \/ classify (a_type a) = TyNox -> delimited (a_spec a) piece body -> modelled body ->
